@@ -86,6 +86,9 @@ def domains():
         "matrix": sorted(int(x) for x in t.PresetColorMatrices),
         "tf": sorted(int(x) for x in t.PresetTransferFunctions),
         "par": list(PARS),
+        # index-valued entries as enum members, or as the plain integers the library's own
+        # sequence-header parser stores for custom values (decoder/sequence_header.py read_uint)
+        "types": ["enum", "int"],
     }
 
 
@@ -100,8 +103,9 @@ DEFAULTS = {
     "matrix": 0,
     "tf": 0,
     "par": (1, 1),
+    "types": "enum",
 }
-DIM_ORDER = ["size", "cformat", "ss", "pcm", "tff", "range", "primaries", "matrix", "tf", "par"]
+DIM_ORDER = ["size", "cformat", "ss", "pcm", "tff", "range", "primaries", "matrix", "tf", "par", "types"]
 
 
 def is_regular(cfg):
@@ -135,6 +139,29 @@ def make_vp(cfg):
 
     w, h = cfg["size"]
     lo, le, co, ce = cfg["range"]
+    if cfg.get("types", "enum") == "int":
+        return VideoParameters(
+            frame_width=w,
+            frame_height=h,
+            color_diff_format_index=int(cfg["cformat"]),
+            source_sampling=int(cfg["ss"]),
+            top_field_first=bool(cfg["tff"]),
+            frame_rate_numer=25,
+            frame_rate_denom=1,
+            pixel_aspect_ratio_numer=cfg["par"][0],
+            pixel_aspect_ratio_denom=cfg["par"][1],
+            clean_width=w,
+            clean_height=h,
+            left_offset=0,
+            top_offset=0,
+            luma_offset=lo,
+            luma_excursion=le,
+            color_diff_offset=co,
+            color_diff_excursion=ce,
+            color_primaries_index=int(cfg["primaries"]),
+            color_matrix_index=int(cfg["matrix"]),
+            transfer_function_index=int(cfg["tf"]),
+        )
     return VideoParameters(
         frame_width=w,
         frame_height=h,
@@ -271,8 +298,8 @@ def spaces(quick):
     d = domains()
     out = {}
     out["structural"] = (
-        ["gen", "size", "cformat", "ss", "pcm", "tff", "range"] + ([] if quick else ["par"]),
-        [GENERATORS, d["size"], d["cformat"], d["ss"], d["pcm"], d["tff"], d["range"]] + ([] if quick else [d["par"]]),
+        ["gen", "size", "cformat", "ss", "pcm", "tff", "range"] + ([] if quick else ["par", "types"]),
+        [GENERATORS, d["size"], d["cformat"], d["ss"], d["pcm"], d["tff"], d["range"]] + ([] if quick else [d["par"], d["types"]]),
     )
     if quick:
         out["colour"] = (
